@@ -310,9 +310,9 @@ theorem joinWith_splitOn (c : Byte) (t : Str) : joinWith c (splitOn c t) = t := 
           simp only [joinWith] at ih ⊢
           rw [← ih]; rfl
 
-/-- the tags of the object: a non-blank delimiter character and a comment character -/
+/-- the tags of the object: a delimiter character (blank – e.g. the space – or not) and a comment
+    character -/
 structure TagsWF (d c : Byte) : Prop where
-  dns : isSpace d = false
   dt : isText d = true
   dq : d ≠ QUOTE
   dc : d ≠ c
@@ -326,9 +326,19 @@ def tagCfg (d c : Byte) : Cfg := { delim := [d], comment := [c] }
 
 theorem tagCfg_eff (d c : Byte) : (tagCfg d c).eff = tagCfg d c := rfl
 
+/-- a set of one delimiter is never mixed -/
+theorem mixed_single (d : Byte) : mixedDelim [d] = false := by
+  unfold mixedDelim hasWsp hasNonWsp
+  cases isSpace d <;> simp
+
 theorem tagCfg_wf (d c : Byte) (h : TagsWF d c) : CfgWF (tagCfg d c) := by
-  refine ⟨?_, by simp [tagCfg], rfl, ?_, ?_, ?_, ?_, ?_, ?_⟩
-  · simp [tagCfg, hasWsp, h.dns]
+  refine ⟨by simp [tagCfg], ?_, ?_, rfl, ?_, ?_, ?_, ?_, ?_, ?_⟩
+  · have := h.dt
+    simp only [isText, Bool.and_eq_true, bne_iff_ne, ne_eq] at this
+    simp only [tagCfg, List.contains_cons, List.contains_nil, Bool.or_false, beq_eq_false_iff_ne, ne_eq]
+    exact fun hh => this.2 hh.symm
+  · simp only [tagCfg, List.contains_cons, List.contains_nil, Bool.or_false, beq_eq_false_iff_ne, ne_eq]
+    exact fun hh => h.dq hh.symm
   · simp only [tagCfg, List.mem_singleton]; exact fun hh => h.cq hh.symm
   · intro x hx; simp only [tagCfg, List.mem_singleton] at hx; subst hx
     simp only [tagCfg, List.contains_cons, List.contains_nil, Bool.or_false, beq_eq_false_iff_ne, ne_eq]
@@ -352,7 +362,7 @@ theorem entryI_wf (d c : Byte) (hT : TagsWF d c) (w : WEntry) (h : w.WF d c) :
       split
       · intro x hx; simp only [List.mem_singleton] at hx; subst hx; decide
       · intro x hx; cases hx
-    · simp [tagCfg, WEntry.entryI]
+    · left; simp [tagCfg, WEntry.entryI]
     · have hv := h.val
       simp only [WEntry.entryI]
       cases hval : w.val with
@@ -360,8 +370,12 @@ theorem entryI_wf (d c : Byte) (hT : TagsWF d c) (w : WEntry) (h : w.WF d c) :
       | quoted q => rw [hval] at hv; exact hv
       | plain l0 conts =>
         rw [hval] at hv
-        refine ⟨hv.1, ?_, hv.2.2.1, hv.2.2.2.1⟩
-        intro k hk; simp only [tagCfg, List.mem_singleton] at hk; subst hk; exact hv.2.1
+        refine ⟨hv.1, ?_, ?_, hv.2.2.2.1⟩
+        · intro k hk; simp only [tagCfg, List.mem_singleton] at hk; subst hk; exact hv.2.1
+        · intro ch hch
+          have := hv.2.2.1 ch hch
+          refine ⟨this.1, this.2, ?_⟩
+          intro hm; rw [show (tagCfg d c).delim = [d] from rfl, mixed_single] at hm; cases hm
     · simp only [WEntry.entryI]
       cases hca : hasText w.ca
       · trivial
@@ -427,7 +441,9 @@ theorem items_wf (d c : Byte) (hT : TagsWF d c) (prev : Option Str) (w : WEntry)
           intro ch hch
           exact ⟨(hgrp.2.1 ch hch).1, by simp only [tagCfg, List.mem_singleton]; exact (hgrp.2.1 ch hch).2⟩
   · exact cbItems_wf d c w h it hit
-  · subst hit; exact entryI_wf d c hT w h
+  · subst hit
+    have := entryI_wf d c hT w h
+    exact ⟨this.1, this.2, fun _ => mixed_single d⟩
   · split at hit
     · simp only [List.mem_singleton] at hit; subst hit; exact nb
     · cases hit
